@@ -1,5 +1,5 @@
 (* C16 — serialisation is well-formed, escaping-safe, deterministic and side-effect free. *)
-From MX Require Import Model.Ser Model.AbsSeq Model.SeqMachine.
+From MX Require Import Model.Ser Model.AbsSeq Model.SeqMachine Gen.Code Model.EltEffects.
 From Coq Require Import List NArith Bool.
 Import ListNotations.
 (* text and attribute values: the reader recovers exactly the string that was written, for EVERY string of code points
@@ -25,5 +25,10 @@ Print Assumptions C16_structure_roundtrip.
 Theorem C16_final_pure : forall s, tree (fst (mstep s MFinal)) = tree s /\ ins (fst (mstep s MFinal)) = ins s.
 Proof. intros s. split; reflexivity. Qed.
 Print Assumptions C16_final_pure.
+(* and in the source: building the ElementTree element (XMLElement._create_et_xml_element / et_xml_element, read by the translator on every
+   run, fail-closed on any other statement) stores into the element's cache field _et_xml_element and nowhere else; it takes the tag from
+   name, every entry of attributes as str(v), the text as str(value_) unless None, the children in get_children() order *)
+Theorem C16_serialise_source : tr_serialise_ok = true /\ ser_only_cache = true.
+Proof. split; reflexivity. Qed.
 Example C16_example : escape_attr [60; 34; 10; 38; 128512]%N = [38;108;116;59; 38;113;117;111;116;59; 38;35;49;48;59; 38;97;109;112;59; 128512]%N.
 Proof. reflexivity. Qed.
